@@ -77,12 +77,23 @@ def script(rng, t, scen, cutname, upto, fault, others, send_first=False):
     ops.append({"op": "quiescent"})
     return {"scen": scen, "sock": t, "ops": ops, "tag": "%s/%s/%d/%s" % (cutname, fault, others, "send-first" if send_first else "recv-first")}
 
-def joining_script(t, scen, rep):
+def joining_script(t, scen, rep, same_identity=False):
     """a peer fails while a call that holds its table entry is pending AND another peer's handshake is registering itself
     (the registration may have to wait for the entry): the call must come back and the socket must go on working"""
     ptype = S.PEER_OF[t][0]
     big = [hx(b"J" * 3000)]
-    ops = [{"op": "attach", "c": 1, "ptype": ptype}]
+    ops = [{"op": "attach", "c": 1, "ptype": ptype, "ident": hx("the-peer")}]
+    if same_identity:
+        # the peer restarts: its new connection (2) registers under its identity while the call still holds the old one (1), which then
+        # fails. The new connection has done nothing wrong: it must stay, and be the one that is served
+        js = joining_script(t, scen, rep)
+        if js is None:
+            return None
+        for o in js["ops"]:
+            if o.get("op") == "attach" and o.get("c") == 2:
+                o["ident"] = hx("the-peer")
+        js["tag"] = "joining-same-identity/%d" % rep
+        return js
     if t == "REQ":
         ops += [{"op": "send", "m": [hx("q1")]}, {"op": "recv_poll"}]                       # recv pending: waits for the reply of peer 1
         ops += [{"op": "attach", "c": 2, "ptype": ptype}, {"op": "attach", "c": 3, "ptype": ptype}]
@@ -155,6 +166,11 @@ def run(chk, replay=None):
                 js = joining_script(t, scen, rep)
                 if js:
                     fam.append(js)
+                if rep < 3:
+                    scen += 1
+                    js = joining_script(t, scen, rep, same_identity=True)
+                    if js:
+                        fam.append(js)
     for s in fam: chk.case((s["sock"], s["tag"], s["scen"]))
     chk.sample({"kind": "fault scenario", "sock": fam[len(fam) // 2]["sock"], "cell": fam[len(fam) // 2]["tag"], "ops": [(o["op"], o.get("c")) for o in fam[len(fam) // 2]["ops"]]})
     v = dlvlib.run_scripts(chk, fam, "c16", monitor="TraceLifecycle")
